@@ -153,9 +153,148 @@ def check_C13(tier, seed):
     return finish(rep)
 
 
+def check_C09(tier, seed):
+    rep = Report("C09", tier, seed)
+    rng = random.Random(seed)
+    quick = tier == "quick"
+    r = structs_mc(rep, quick, early=EARLY, check_work=False)
+    keep = ["structs", "structs_sha", "rest_sha"]
+    # role enumeration from TLC x a rotating option vector
+    ov = F.all_opts()
+    sub = r.cases[::(6 if quick else 1)]
+    cases = []
+    for i, e in enumerate(sub):
+        for j in range(3):
+            cases.append({"id": "role-%05d-%d" % (i, j), "family": "roles-x-options", "S": e["S"], "opts": ov[(i * 3 + j * 17) % len(ov)]})
+    drive_and_judge(rep, "C09", cases, "roles", keep)
+    # full option matrix (16 derive vectors x 3 representations, + validation / formatter variants) on role-rich shaders
+    drive_and_judge(rep, "C09", F.option_matrix_cases(rng, 40 if quick else 600, "mat", "option-matrix"), "matrix", keep)
+    rep.exhaustive = True
+    rep.notes.append("every shader of the matrix family is generated under all 48 derive/representation vectors plus validation and rustfmt variants")
+    return finish(rep)
+
+
+def seed_sources(rng, n_role, n_rand):
+    shaders = [F.role_shader(rng)[0] for _ in range(n_role)] + [F.rand_shader(rng, names=True) for _ in range(n_rand)]
+    texts = concretise(shaders)
+    seeds = [("role-%d" % i if i < n_role else "rand-%d" % i, t) for i, t in enumerate(texts)]
+    return seeds + repo_shaders()
+
+
+def check_C17(tier, seed):
+    rep = Report("C17", tier, seed)
+    rng = random.Random(seed)
+    quick = tier == "quick"
+    r = run_mc("MC_Generator.tla", "MC_Generator.cfg", workers=4)
+    rep.add_mc("MC_Generator", r, "gates: no generation step before parse and (requested) validation succeeded; error kinds; no panic on rejected input")
+    rep.add_selftest("MC_Generator_mut(gate after bind group data)", run_mc("MC_Generator.tla", "MC_Generator_mut.cfg", workers=2, expect_violation=True))
+    seeds = seed_sources(rng, 12 if quick else 80, 12 if quick else 80)
+    cases = F.c17_cases(rng, seeds, 120 if quick else 600)
+    drive_and_judge(rep, "C17", cases, "corrupt", ["mods"])
+    return finish(rep)
+
+
+def pairs_of(events):
+    """(case, obs) pairs of a trace, dropping hook events"""
+    out, cur = [], None
+    for e in events:
+        if e["ev"] == "case":
+            cur = e
+        elif e["ev"] == "obs" and cur is not None:
+            out.append((cur, e))
+            cur = None
+    return out
+
+
+def check_C18(tier, seed):
+    rep = Report("C18", tier, seed)
+    rng = random.Random(seed)
+    quick = tier == "quick"
+    r = run_mc("MC_History.tla", "MC_History.cfg", workers=8)
+    rep.add_mc("MC_History(2 callers x 7 phases)", r, "every interleaving at phase granularity; Pure and NoSharedState")
+    rep.add_selftest("MC_History_mut(Leak=5)", run_mc("MC_History.tla", "MC_History_mut.cfg", workers=4, expect_violation=True))
+    scheds = sorted(set(tuple(c["schedule"]) for c in r.cases))
+    rng.shuffle(scheds)
+    nsh = 40 if quick else 160
+    ovs = [F.opts(), F.opts(bmh=True, bmv=True), F.opts(enc=True, mv="glam", serde=True), F.opts(bmh=True, mv="nalgebra", validate="all"),
+           F.opts(bmv=True, enc=True, mv="glam", rustfmt=True)]
+    L = []
+    for i in range(nsh):
+        S, has_rt = F.role_shader(rng)
+        o = dict(ovs[i % len(ovs)])
+        if has_rt:
+            o.update(enc=True, bmh=False)
+        L.append({"id": "h-%04d" % i, "family": "history", "S": S, "opts": o, "repeat": 2})
+    for i, S in enumerate(F.stress_shaders(rng)):
+        L.append({"id": "h-stress-%d" % i, "family": "history", "S": S, "opts": F.opts(bmh=True, serde=True), "repeat": 12})
+    for i, (name, text) in enumerate(repo_shaders()):
+        L.append({"id": "h-repo-%d" % i, "family": "history", "wgsl": text, "opts": F.opts(bmv=True, enc=True, mv="glam"), "repeat": 2})
+    # (i) in one process, with repeats
+    evA = run_vdriver_raw("gen", L, "C18_A", extra=["--no-project", "--no-s"])
+    # (ii) another process: reversed order (different history of previous calls), other cwd, scrubbed environment
+    evB = run_vdriver_raw("gen", list(reversed(L)), "C18_B", cwd="/", clean_env=True,
+                          env={"RUST_BACKTRACE": "1", "TMPDIR": "/nonexistent", "LANG": "tr_TR.UTF-8", "VERIF_NOISE": str(rng.random())},
+                          extra=["--no-project", "--no-s"])
+    # (iii) a third process with yet another order
+    L3 = L[:]
+    rng.shuffle(L3)
+    evC = run_vdriver_raw("gen", L3, "C18_C", cwd=WORK, extra=["--no-project", "--no-s"])
+    # (iv) exported interleavings replayed on real threads (sync hooks hand the turn over)
+    groups = []
+    per_pair = 10 if quick else 60
+    k = 0
+    for i in range(0, len(L) - 1):
+        for j in range(per_pair):
+            groups.append({"id": "s-%04d-%02d" % (i, j), "cases": [L[i], L[(i + 1 + j) % len(L)]], "schedule": list(scheds[k % len(scheds)])})
+            k += 1
+    evD = run_vdriver_raw("sched", groups, "C18_D")
+    # (v) free-running threads, eight at a time
+    fgroups = [{"id": "f-%04d" % i, "cases": [L[(i + q) % len(L)] for q in range(8)], "schedule": []} for i in range(0, len(L), 2)]
+    evE = run_vdriver_raw("sched", fgroups, "C18_E")
+    by_src = {}
+    order = []
+    total = 0
+    for tag, evs in (("A", evA), ("B", evB), ("C", evC), ("D", evD), ("E", evE)):
+        if tag == "D":
+            sched_events = [e for e in evs if e["ev"] == "sched"]
+        for c, o in pairs_of(evs):
+            c = dict(c); o = dict(o)
+            c["id"] = o["id"] = "%s:%s" % (tag, c["id"])
+            c["has_s"] = False
+            c.pop("S", None)
+            if c["src_sha"] not in by_src:
+                by_src[c["src_sha"]] = []
+                order.append(c["src_sha"])
+            by_src[c["src_sha"]].append((c, o))
+            total += 1
+    d = os.path.join(WORK, "runs", "C18_merged")
+    os.makedirs(d, exist_ok=True)
+    tp = os.path.join(d, "trace.ndjson")
+    with open(tp, "w") as f:
+        for sha in order:
+            for c, o in by_src[sha]:
+                f.write(json.dumps(c) + "\n" + json.dumps(o) + "\n")
+        for e in sched_events:
+            f.write(json.dumps(e) + "\n")
+    full = sum(1 for e in sched_events if len(e["order"]) == len(e["schedule"]))
+    rep.notes.append("%d of %d scheduled runs followed their exported interleaving to the end (the rest finished a call early)" % (full, len(sched_events)))
+    if sched_events and full == 0:
+        raise ToolError("no scheduled run followed its interleaving: sync hooks missing?")
+    tr = validate_trace(tp, "C18")
+    rep.evaluations += total
+    for c in L:
+        rep.distinct.add(src_key(c))
+    handle_verdicts(rep, tr, {}, "history")
+    rep.sample({"schedule": list(scheds[0]), "pair": [L[0]["id"], L[1]["id"]]})
+    rep.sample({"case": L[0]})
+    rep.notes.append("%d calls: sequential with repeats, 2 other processes (reversed / shuffled order, other cwd, scrubbed env), %d scheduled thread pairs over %d distinct exported interleavings, %d free-running 8-thread groups"
+                     % (total, len(groups), min(len(scheds), len(groups)), len(fgroups)))
+    return finish(rep)
+
+
 # Does the specification of the stage walk memoise callees per entry point? (the code does since the C20 fix)
 MEMO = True
 # Does the type closure return early on a type it has already inserted? (the code does since the C20 fix)
 EARLY = True
 
-CHECKS = {"C11": check_C11, "C03": check_C03, "C08": check_C08, "C20": check_C20, "C13": check_C13}
+CHECKS = {"C11": check_C11, "C03": check_C03, "C08": check_C08, "C20": check_C20, "C13": check_C13, "C09": check_C09, "C17": check_C17, "C18": check_C18}
